@@ -797,6 +797,6 @@ func main() {
 		},
 		MinEvals:    3000,
 		MinDistinct: 150,
-		Require:     []string{"honest_proofs_accepted", "corrupted_proofs_rejected", "second_prover_proofs_compared", "proofs_offered_at_era_boundary_heights", "blocks_applied", "blocks_reverted", "v1_resolved_valid", "v1_resolved_missed", "v2_resolved_proof", "v2_resolved_expiration", "v2_resolved_renewal", "v1_revisions_checked", "v2_revisions_checked", "contract_payout_outputs_checked", "illegal_revisions_rejected"},
+		Require:     []string{"zero_root_contract_proofs_offered", "honest_proofs_accepted", "corrupted_proofs_rejected", "second_prover_proofs_compared", "proofs_offered_at_era_boundary_heights", "blocks_applied", "blocks_reverted", "v1_resolved_valid", "v1_resolved_missed", "v2_resolved_proof", "v2_resolved_expiration", "v2_resolved_renewal", "v1_revisions_checked", "v2_revisions_checked", "contract_payout_outputs_checked", "illegal_revisions_rejected"},
 	})
 }
